@@ -548,6 +548,13 @@ class Machine:
         s.check(p, sizeof(t), False, t)
         r = p.r; r.reads += 1; off = p.off
         if isinstance(off, z3.ExprRef) or r.arr is not None:
+            if r.arr is None and r.default is None and r.data and r.elem is not None:
+                # a region whose cells all hold the same concrete value: any in-bounds index reads that value
+                vals = r.data.values()
+                v0 = next(iter(vals))
+                if len(r.data) * sizeof(t) == r.size and not isinstance(v0, (z3.ExprRef, Ptr)) and v0 is not None \
+                        and all((not isinstance(v, (z3.ExprRef, Ptr))) and v == v0 for v in vals):
+                    return v0
             if r.arr is None:
                 if r.default is not None and t[0] in ('int', 'double'):
                     for o in range(0, r.size, sizeof(t)):
